@@ -234,6 +234,9 @@ class Run:
         if step.get("reuse_class") and self.mod is not None:
             if not step.get("keep_objs"):
                 self.objs = render.provider_objects(spec, self.mod)
+        elif not reuse and getattr(self, "preloaded", False):
+            self.preloaded = False
+            self.objs = render.provider_objects(spec, self.mod)
         elif not reuse:
             try:
                 self.source = step.get("source") or render.render(spec)
@@ -436,9 +439,19 @@ class Run:
         of other classes. The other instance's history goes to a separate log (checked against the
         reference on its own); the main history must be unaffected."""
         rec = self.rec
+        act = step["action"]
+        if self.sm is None and act == "define_same_name" and self.mod is None:
+            # an unrelated same-named class defined (and used) BEFORE the main class is instantiated
+            try:
+                self.mod, self.source = render.load(self.spec, rec)
+                self.preloaded = True
+                self._other_define(step)
+                rec.emit("note", what="other-definition", action=act, pre=True)
+            except Exception as err:  # noqa: BLE001
+                rec.emit("note", what="other-definition", action=act, exc=f"{type(err).__name__}: {err}"[:200])
+            return
         if self.sm is None:
             return
-        act = step["action"]
         if not hasattr(self, "other_log"):
             self.other_log, self.other, self.other_objs = [], None, {}
         main_val = dict(rec.val)
@@ -605,8 +618,11 @@ class Run:
                 body = re.sub(r"def (\w+)\(self, \*args, \*\*kwargs\):", r"def \1(self, args=None, *, kwargs=None):", body)
             elif variant == 1:
                 body = re.sub(r"(?<!async )def (\w+)\(self, \*args, \*\*kwargs\):", r"async def \1(self, *args, **kwargs):", body)
-            else:
+            elif variant == 2:
                 body = re.sub(r"def (\w+)\(self, \*args, \*\*kwargs\):", r"def \1(self, kwargs=None, *args):", body)
+            else:
+                # same positional parameters, different keyword-only parameters
+                body = re.sub(r"def (\w+)\(self, \*args, \*\*kwargs\):", r"def \1(self, *, kwargs=None, args=None):", body)
             body = re.sub(r"return (await )?REC\.(a?run|a?guard|validator)\((.*)\)", r"return NOISE(1)", body)
             body = body.replace("return REC.guard(", "return True or (").replace("lambda *args, **kwargs: REC.run(", "lambda *args, **kwargs: NOISE(")
             modname = f"vmon_dyn_{uid}_x{len(getattr(self, 'extra_mods', []))}"
